@@ -23,6 +23,15 @@ CHECKS = {
  "C12": (MC, "Fail transitions of the TLA+ container models (FailStutter checked by TLC from every reachable state) replayed on the real containers inside try/catch; TLC validates exception type and unchanged projections (SeqTrace/MapTrace Mode fail)",
          "from every reachable state of the sequence models every invalid-argument class is tried and TLC checks that failing steps stutter; those fail edges plus random histories salted with indices one past either end / far out / INT64 limits, pops of empty containers, absent keys and elements, wrong-typed and NULL keys, values and elements, non-container operands and impossible resizes run on real Arrays, Lists, Tuples, Tables and Trees, and TLC checks that each failing call raises the documented exception type and leaves every live container's projection unchanged while the history continues.",
          "default checked build; one open finding (assign from a non-container source clears the target) is withheld from generation and reported by its pinned script; String/File/allocation-class failures are judged by C16/C20/C19", "5/C12"),
+ "C01": (MC, "TLA+ Heap model (mutator + mark/sweep collector of src/GC.c, every sweep order, conservative retention as nondeterminism) checked exhaustively by TLC (SafeCollect; TLS defect refuted); model transitions and random mutator programs run on the real collector; recorded programs validated by TLC recomputing reachability (HeapTrace Mode reach)",
+         "TLC enumerates all heaps over 3 (quick) / 4 (thorough) objects of every kind and allocation mode with stack, TLS and root-registered roots, Box ownership, deletions, stop/start and every order of the sweep's pending list, and checks that a collection never sweeps a reachable object; every model transition and hundreds of random programs (cycles, sharing, self references, containers that grow and rehash while referenced, heap Tuples, Table/Tree keys and values, forced and threshold collections, chains up to 20 000 links) run on the real collector in their own process, and TLC rejects any recorded sweep that took an object reachable in the specification's graph.",
+         "conservative retention is allowed; programs stay in contract (documented in-contract rules); open finding F-C01-deep-chain (mark recursion overflows the stack beyond ~50 000 links) is reported by its pinned script", "5/C01"),
+ "C06": (MC, "same Heap model: Once, DelWorks, DownClean, NoZombie checked exhaustively by TLC with every pending-list order (three as-found designs refuted); programs run one per process with destructor-counting Node objects and a post-exit event; validated by TLC (HeapTrace Mode final)",
+         "TLC checks on the collector model that no object is finalised twice, that an explicit del finalises at once, and that teardown finalises every managed object, for every interleaving of allocation modes, Box ownership (owner before or after the owned object), deletions, collections, stop/start and teardown; model transitions and random programs run on the real collector, one process each, and TLC checks from the recorded destructor runs (including the event written after Cello_Exit) that each object was finalised at most once, at the right moment, and that only undeleted root/raw objects remain.",
+         "the destructor ledger is the harness' Node type; open finding F-C06-stop-window (stopped collector neither registers nor deletes) is withheld from generation and reported by its pinned script; worker-thread teardown is exercised by C13", "5/C06"),
+ "C17": (MC, "TLA+ Registry model (GC_Set_Ptr/GC_Mem_Ptr/GC_Rem_Ptr/GC_Sweep compaction/rehash transcribed) checked exhaustively by TLC against the abstract set with root flags (a seeded compaction defect is refuted); programs with arena-placed objects at colliding addresses; registry dump and mem() validated by TLC after every operation (HeapTrace Mode reg)",
+         "TLC enumerates all add/remove/sweep histories (every marked subset) over addresses that collide modulo every registry size and wrap around, and checks Exact, NoDup, CountOK, RootsOK, MemOK (live and dead addresses) and MarksClear; on the real collector, objects placed through the type's own Alloc instance at arena addresses colliding modulo 5, 11, 23 and 53 plus ordinary objects go through allocations, deletions, forced and threshold collections, and after every operation TLC compares the dumped registry (ids, root flags, count, marks, duplicates, unknown entries) and mem() of every live object with the specification's set.",
+         "registry contents are observed through the #include \"GC.c\" seam (automatic fallback to mem() only); garbage that a sweep leaves for the next cycle is not a violation", "5/C17"),
 }
 
 NOT_YET = {
